@@ -105,6 +105,61 @@ func init() {
 				okLocal = false
 			}
 		}
+		// UDP server: the query is unpacked from the listener's receive buffer inside the read loop, before the goroutine
+		// that handles it is started; that goroutine touches neither the receive buffer nor the control-message buffer
+		// (the loop stores the next datagram there while the goroutine runs)
+		su := ex.fn("pkg/server/udp.go", "", "ServeUDP")
+		shapeUDP, okUDP := false, false
+		if su != nil {
+			var loops []*ast.ForStmt
+			for _, st := range su.Body.List {
+				if f, ok := st.(*ast.ForStmt); ok {
+					loops = append(loops, f)
+				}
+			}
+			if len(loops) == 1 && loops[0].Cond == nil && len(loops[0].Body.List) > 0 &&
+				ex.str(loops[0].Body.List[0]) == "n, oobn, _, remoteAddr, err := c.ReadMsgUDPAddrPort(*rb, ob)" {
+				body := loops[0].Body.List
+				iNew, iUnpack, iGo, nGo := -1, -1, -1, 0
+				var lit *ast.FuncLit
+				for i, st := range body {
+					s := ex.str(st)
+					switch {
+					case s == "q := new(dns.Msg)":
+						iNew = i
+					case strings.HasPrefix(s, "if err := q.Unpack((*rb)[:n]); err != nil {") && strings.HasSuffix(s, "continue }"):
+						iUnpack = i
+					}
+					if g, ok := st.(*ast.GoStmt); ok {
+						iGo = i
+						lit, _ = g.Call.Fun.(*ast.FuncLit)
+					}
+				}
+				ast.Inspect(loops[0], func(n ast.Node) bool {
+					if _, ok := n.(*ast.GoStmt); ok {
+						nGo++
+					}
+					return true
+				})
+				if nGo == 1 && iGo == len(body)-1 && lit != nil && len(lit.Type.Params.List) == 0 {
+					shapeUDP = true
+					touches, usesQ := false, false
+					ast.Inspect(lit.Body, func(n ast.Node) bool {
+						if id, ok := n.(*ast.Ident); ok {
+							switch id.Name {
+							case "rb", "ob":
+								touches = true
+							case "q":
+								usesQ = true
+							}
+						}
+						return true
+					})
+					okUDP = iNew >= 0 && iNew < iUnpack && iUnpack < iGo && !touches && usesQ
+				}
+			}
+		}
+		ex.setBool("c03UdpUnpackInReadLoop", okUDP, shapeUDP, "ServeUDP: the loop unpacks (*rb)[:n] into a fresh message before `go`; the handler goroutine (last statement of the loop body) refers to neither rb nor ob")
 		ex.setBool("c03LocalAnswersUseSetReply", okLocal, true, "hosts.LookupMsg, black_hole.Response, zone_file Reply, GenEmptyReply build their message with SetReply/SetRcode from the query")
 	})
 }
